@@ -18,13 +18,11 @@ pub struct MType { _p: () }
 #[verifier::external_body]
 pub struct MError { _p: () }
 
-#[derive(Clone, Copy)]
-pub enum HookKind { PostCreate, PreRecycle, PostRecycle }
 
 // what user code has done to one pooled value, in order (ghost history carried by the value itself)
 pub enum Event {
     Created,
-    Hook { kind: HookKind, idx: int, metrics: Metrics, ok: bool },
+    Hook { hid: int, metrics: Metrics, ok: bool },
     Recycle { metrics: Metrics, ok: bool },
     Predicate { metrics: Metrics, keep: bool },
     Detached,
@@ -68,25 +66,40 @@ pub struct SyncHookFn { _p: () }
 pub struct AsyncHookFn { _p: () }
 
 impl SyncHookFn {
-    pub uninterp spec fn kind(&self) -> HookKind;
-    pub uninterp spec fn idx(&self) -> int;
+    // identity of the registered closure
+    pub uninterp spec fn hid(&self) -> int;
     #[verifier::external_body]
     pub fn call_(&self, obj: &mut MType, metrics: &Metrics) -> (r: Result<(), HookError<MError>>)
         ensures final(obj).id() == old(obj).id(),
-            final(obj).hist() == old(obj).hist().push(Event::Hook { kind: self.kind(), idx: self.idx(), metrics: *metrics, ok: r.is_ok() })
+            final(obj).hist() == old(obj).hist().push(Event::Hook { hid: self.hid(), metrics: *metrics, ok: r.is_ok() })
     { unimplemented!() }
 }
 impl AsyncHookFn {
-    pub uninterp spec fn kind(&self) -> HookKind;
-    pub uninterp spec fn idx(&self) -> int;
+    pub uninterp spec fn hid(&self) -> int;
     // calling the hook and awaiting the boxed future in place; Unwind = cancelled / panicked while pending
     #[verifier::external_body]
     pub fn call_async_(&self, obj: &mut MType, metrics: &Metrics) -> (r: Ctl<Result<(), HookError<MError>>>)
         ensures final(obj).id() == old(obj).id(),
-            final(obj).hist() == old(obj).hist().push(Event::Hook { kind: self.kind(), idx: self.idx(), metrics: *metrics, ok: r matches Ctl::Done(Ok(_)) })
+            final(obj).hist() == old(obj).hist().push(Event::Hook { hid: self.hid(), metrics: *metrics, ok: r matches Ctl::Done(Ok(_)) })
     { unimplemented!() }
 }
 
 // Cow<'static, str> payload of error messages: opaque
 #[verifier::external_body]
 pub struct CowStr { _p: () }
+
+// std::collections::VecDeque methods without a vstd spec (A5)
+#[verifier::external_body]
+pub fn vx_reserve_exact<T>(v: &mut VecDeque<T>, additional: usize)
+    ensures final(v)@ == old(v)@
+{ unimplemented!() }
+
+// the user predicate of Pool::retain (R3): an external FnMut; every call logs the object it saw, the metrics it was
+// given and its verdict
+pub struct Pred { pub calls: Ghost<Seq<(int, Metrics, bool)>> }
+impl Pred {
+    #[verifier::external_body]
+    pub fn call_(&mut self, obj: &MType, metrics: Metrics) -> (r: bool)
+        ensures final(self).calls@ == old(self).calls@.push((obj.id(), metrics, r))
+    { unimplemented!() }
+}
